@@ -622,7 +622,7 @@ def _one_instance(ctx: ProcCtx, p, op, opname, args, props, live, rec, env, boun
     if "C17" in props:
         c17_check(q, bounds, rec, tier, rng)
     if "C06" in props:
-        c06_check(p, q, rec, ["divide_loop", "reorder_loops", "unroll_loop", "lift_scope", "split_write"], env, rng)
+        c06_check(p, q, rec, ["divide_loop", "reorder_loops", "unroll_loop", "lift_scope", "split_write"] if tier == "thorough" else rng.sample(["divide_loop", "reorder_loops", "unroll_loop", "lift_scope", "split_write"], 2), env, rng, n_direct=8 if tier == "thorough" else 3)
     is_eqv, ign = ignore_cfg_of(p_ir, q_ir)
     rec["reported_cfg"] = sorted(f"{a}.{b}" for a, b in ign)
     rec["tracked_eqv"] = bool(is_eqv)
@@ -873,7 +873,7 @@ def _src_tag(node):
     return (getattr(si, "filename", None), getattr(si, "lineno", None), getattr(si, "col_offset", None))
 
 
-def c06_check(p, q, rec, second_ops, env, rng):
+def c06_check(p, q, rec, second_ops, env, rng, n_direct=8):
     """forward every statement / block / gap cursor of p to q (C06 layer 2)"""
     from exo.core.LoopIR import LoopIR
     from exo.core.internal_cursors import InvalidCursorError
@@ -967,7 +967,7 @@ def c06_check(p, q, rec, second_ops, env, rng):
     for opname in second_ops:
         if opname not in ops:
             continue
-        for c in stmts[:8]:
+        for c in (stmts[:n_direct] if n_direct >= len(stmts) else rng.sample(stmts, n_direct)):
             try:
                 fc = q.forward(c)
             except Exception:
